@@ -25,4 +25,4 @@ PROP = {
     "assumptions": STD_ASSUME + ["kappa_F = ||M||_F ||M^-1||_F from the long double reference; cases with kappa_F > 1e10 are outside the quantifier (it names condition numbers up to 1e8)",
                                  "entries within ~1e-10..1e10 so that no determinant over- or underflows"],
 }
-PROP["level_text"] += ' Also: determinants that are subnormal numbers, one subnormal row with compensating powers of two, writes through a row reference retained across Determinant(), growth matrices (sub-diagonal part up to 9.95 x the diagonal), the row sizes of the returned inverse, real-valued matrices with a repeated row on the rejected side.'
+PROP["level_text"] += ' Also: determinants that are subnormal numbers, one subnormal row with compensating powers of two, writes through a row reference retained across Determinant(), growth matrices (sub-diagonal part up to 9.95 x the diagonal), the row sizes of the returned inverse.'
